@@ -692,7 +692,7 @@ func init() {
 			func(r *Rng, i int) interface{} { return &wireCase{Seed: r.U64()} },
 			func(f string) (interface{}, error) {
 				var c wireCase
-				if err := readJSON(f, &c); err != nil {
+				if err := readCase(f, &c); err != nil {
 					return nil, err
 				}
 				return &c, nil
